@@ -7,6 +7,7 @@ import (
 	"fmt"
 	"os"
 	"path/filepath"
+	"strconv"
 	"strings"
 	"testing"
 
@@ -438,4 +439,90 @@ func TestC02_Changed(t *testing.T) {
 // Probe for the known finding K1 (escape token conflation): generates only that class.
 func TestC02K1_EscapeConflation(t *testing.T) {
 	prop[c02Case]{property: "C02", gen: genC02("TestC02K1_EscapeConflation", true), check: checkC02, classify: classifyC02, known: knownC02, weight: 0.05}.run(t)
+}
+
+// ---- a test in which MANY calls differ (a shared fixture changed: every assertion of a table test is off): every single
+// call reports its failure, in the first execution and in every further one of the process.
+
+type c02ManyCase struct {
+	N     int    `json:"calls"`
+	API   string `json:"api"` // snap | json | yaml | ssnap | sjson | mixed
+	Execs int    `json:"executions"`
+	Color bool   `json:"color"`
+}
+
+func (c c02ManyCase) call(i int, changed bool) Call {
+	api := c.API
+	if api == "mixed" {
+		api = []string{"snap", "json", "yaml", "ssnap", "sjson"}[i%5]
+	}
+	v := fmt.Sprintf("value %d", i)
+	if changed {
+		v = fmt.Sprintf("changed %d", i)
+	}
+	switch api {
+	case "json", "sjson":
+		return Call{API: api, Doc: BS(fmt.Sprintf(`{"v":%q}`, v)), Form: "string"}
+	case "yaml":
+		return Call{API: api, Doc: BS("v: " + v + "\n"), Form: "string"}
+	}
+	return Call{API: api, Vals: []Val{strVal(v)}}
+}
+
+func checkC02Many(c c02ManyCase) error {
+	root := scratchDir()
+	defer os.RemoveAll(root)
+	defer func() { colors.NOCOLOR = true }()
+	spec := CfgSpec{Dir: "snaps"}
+	newProcess(Mode{})
+	ft := newFakeT("TestManyMismatches")
+	for i := 0; i < c.N; i++ {
+		if r := c.call(i, false).invoke(spec.build(root), ft); len(r.Errors) != 0 {
+			return fmt.Errorf("recording call %d: %q", i+1, clipAll(r.Errors))
+		}
+	}
+	ft.finish()
+	colors.NOCOLOR = !c.Color
+	newProcess(Mode{})
+	cfg := spec.build(root)
+	ageDir(root)
+	before := snapDir(root)
+	for e := 1; e <= c.Execs; e++ {
+		ft = newFakeT("TestManyMismatches")
+		for i := 0; i < c.N; i++ {
+			r := c.call(i, true).invoke(cfg, ft)
+			if out, err := outcomeOf(r); err != nil || out != oFailed {
+				return fmt.Errorf("execution %d: call %d of %d differs from its snapshot but ended as %q (%v): errors=%q logs=%q", e, i+1, c.N, out, err, clipAll(r.Errors), clipAll(r.Logs))
+			}
+		}
+		ft.finish()
+	}
+	if d := diffDirs(before, snapDir(root), false); d != "" {
+		return fmt.Errorf("failing calls wrote: %s", d)
+	}
+	return nil
+}
+
+func TestC02_ManyMismatches(t *testing.T) {
+	var cases []c02ManyCase
+	for i, api := range []string{"snap", "json", "yaml", "ssnap", "sjson", "mixed"} {
+		for j, n := range []int{11, 12, 15, 40} {
+			cases = append(cases, c02ManyCase{N: n, API: api, Execs: 1 + (i+j)%2, Color: (i+j)%3 == 0})
+		}
+	}
+	nshards, _ := strconv.Atoi(getenv("VERIF_NSHARDS", "1"))
+	shard, _ := strconv.Atoi(getenv("VERIF_SHARD", "0"))
+	p := prop[c02ManyCase]{property: "C02", check: checkC02Many, classify: func(c c02ManyCase) ([]string, bool) {
+		return []string{"api_" + c.API, fmt.Sprintf("mismatching_calls_in_one_test_%d", c.N)}, true
+	}}
+	p.enumerate(t, func(yield func(c02ManyCase) bool) {
+		for i, c := range cases {
+			if i%nshards != shard {
+				continue
+			}
+			if !yield(c) {
+				return
+			}
+		}
+	})
 }
